@@ -12,6 +12,8 @@ object to its tree (`Inv`: memo cells hold by-name values; requestor links conne
 -/
 import UH.Proofs.ByName
 import UH.Proofs.ByNameEval
+import UH.Proofs.ByNameComplete
+import UH.Proofs.EvalFComplete
 import UH.Properties.NatSem
 namespace UH.ByNameP
 open UH BigStep ByName
@@ -308,5 +310,24 @@ theorem reference_evaluator_program (fuel : Nat) (e : AST) (n : Int) (w : World)
     (h : bnEval fuel (.mk [] []) e = some (.int n)) :
     ∃ (hh : Nat) (s' : Store), Eval (alloc initStore e ⟨[], []⟩) w (.frame initStore.cells.size) hh
         (.ok (.arg (.strict (.int n)))) s' w := bnEval_program fuel e n w h
+
+/-- … and it is **complete**: every value of the reference semantics is returned from some fuel on — the executable evaluator
+the correspondence runs next to the implementation *is* the reference semantics -/
+theorem reference_evaluator_complete {ρ : TEnv} {e : AST} {v : TVal} (h : BN ρ e v) :
+    ∃ k0, ∀ k, k0 ≤ k → bnEval k ρ e = some v := bnEval_complete h
+
+theorem reference_evaluator_iff (ρ : TEnv) (e : AST) (v : TVal) : BN ρ e v ↔ ∃ k, bnEval k ρ e = some v :=
+  bnEval_iff ρ e v
+
+/-- **the two executable models agree**: if the reference evaluator (`bn`) returns the integer `n` for a closed program, the
+verified big-step evaluator (`main2`'s `evalF`) run on the freshly delayed program returns `n` too, for every large enough
+fuel bound — the correspondence compares the implementation with both, and they cannot disagree with each other -/
+theorem reference_and_bigstep_evaluators_agree (k : Nat) (e : AST) (n : Int) (w : World)
+    (h : bnEval k (.mk [] []) e = some (.int n)) :
+    ∃ (fuel height : Nat) (s' : Store),
+      evalF fuel (alloc initStore e ⟨[], []⟩) w (.frame initStore.cells.size) = .ok ⟨.ok (.arg (.strict (.int n))), s', w, height⟩ := by
+  obtain ⟨hh, s', ev⟩ := bnEval_program k e n w h
+  obtain ⟨fuel, h', hf, _⟩ := evalF_complete ev
+  exact ⟨fuel, h', s', hf⟩
 
 end UH.ByNameP
